@@ -24,6 +24,7 @@ names while `<ANCESTOR SHORT NAME>_<OPTION>` variables hold decoy texts; their r
 declaration chain (`Options.classBackendRow`, driver: `class_row`) and compared with the live parser and the documented names.
 """
 import concurrent.futures
+import hashlib
 import json
 import os
 import shutil
@@ -748,6 +749,8 @@ def realise(case, tables, r, ctx):
     uses_profile = case.get('decoys') or any(s.get('prof') for s in case['assign'].values())
     if uses_profile and not file_ignored(case) and not case['assign'].get('/profile', {}).get('cli'):
         assign(case, pf, 'cli', 0, case['profile'])
+    # the spelling of long options on the command line is an axis of its own (exact / an unambiguous prefix / `--flag=value`)
+    case['spell'] = r.choice(['exact', 'exact', 'abbrev', 'abbrev', 'equals'])
 
 
 # ------------------------------------------------------------------------------------------------ running a case
@@ -763,6 +766,25 @@ def toml_value(v):
     return json.dumps(str(v), ensure_ascii=True)
 
 
+def spell(case, tables, flag, key):
+    """how the user WRITES a long option: argparse accepts every unambiguous prefix of it (`--repo`, `--prof`, `--conc`), and the
+    reference semantics does not depend on the spelling.  The prefix is unambiguous among ALL option strings of the sub-command's parser
+    (so it is also unambiguous for any parser holding a subset of them).  → the word to put on the command line"""
+    if case.get('spell') != 'abbrev' or not flag.startswith('--') or len(flag) < 5:
+        return flag
+    try:
+        allflags = {fl for row in tables.rows_for(case['command'], case['backend']) for v in row['cli'] for fl in v['flags']}
+    except Exception:  # noqa: BLE001
+        return flag
+    allflags |= {'--help', '--version'}
+    if flag not in allflags:
+        return flag
+    ok = [flag[:n] for n in range(3, len(flag)) if sum(1 for f in allflags if f.startswith(flag[:n])) == 1]
+    if not ok:
+        return flag
+    return ok[int(hashlib.sha256((key + flag).encode()).hexdigest(), 16) % len(ok)]
+
+
 def materialise(case, tables, cdir):
     """writes the configuration / key / password files; returns (argv, env additions)"""
     cdir.mkdir(parents=True, exist_ok=True)
@@ -775,7 +797,10 @@ def materialise(case, tables, cdir):
         for vi, raw in srcs.get('cli', []):
             v = row['cli'][vi]
             flag = v['flags'][(len(key) + vi) % len(v['flags'])] if v['flags'] else ''
-            if v['kind'] == 'typed':
+            flag = spell(case, tables, flag, key)
+            if v['kind'] == 'typed' and case.get('spell') == 'equals' and flag.startswith('--') and isinstance(raw, str):
+                cli_words += [flag + '=' + raw]
+            elif v['kind'] == 'typed':
                 cli_words += [flag, raw]
             elif v['kind'] == 'multi':
                 shape, words = raw['shape'], raw['words']
@@ -1357,6 +1382,7 @@ def run_cases(out, drv, tables, real, cases, base, label, collect=None):
         out.count('command:' + c['command'])
         out.count('backend:' + ('<synthetic custom backend>' if eff_backend in getattr(tables, 'synth', {}) else eff_backend))
         out.count('config:' + c['config_mode'])
+        out.count('spelling:' + c.get('spell', 'exact'))
         out.count('outcome:' + (res['outcome'] if res['outcome'] == 'ok' else observed_error(res)))
         out.count(f'sources-set:{min(nsrc, 5)}{"+" if nsrc >= 5 else ""}')
         out.count(f'options-set:{min(n_set, 4)}')
